@@ -217,7 +217,8 @@ Definition gString := Kernels3.ExtendedKey_String unit point Int_t Base58.encode
 Definition gNewMaster := Kernels3.NewMaster unit Int_t Hash_t tt h_new h_write h_sum i_new i_SetBytes c_N i_Cmp i_Sign.
 Definition gNeuter := Kernels3.ExtendedKey_Neuter unit point Int_t tt ser_point c_ScalarBaseMult pk_of_X_Y priv_to_pub.
 Definition gParse := Kernels3.NewKeyFromString unit point Int_t Base58.decode dsha tt parse_pk i_new i_SetBytes c_N i_Cmp i_Sign.
-Definition gChild := Kernels3.ExtendedKey_Child unit point Int_t Hash_t tt i_Bytes ser_point parse_pk hash160
+(* (phase 5) a parsed point is never a nil *bchec.PublicKey: PublicKey_isnil := fun _ => false *)
+Definition gChild := Kernels3.ExtendedKey_Child unit point Int_t Hash_t tt i_Bytes ser_point parse_pk (fun _ => false) hash160
   c_ScalarBaseMult pk_of_X_Y h_new h_write h_sum i_new i_SetBytes c_N i_Cmp i_Sign i_Add i_Mod pk_X pk_Y c_Add.
 
 (* ---------- the memo field ---------- *)
